@@ -187,7 +187,7 @@ func fdCounts() (fds, listeners int) {
 	return
 }
 
-// settle waits for goroutines that have been told to stop to be gone: up to 2 s for the count
+// settle waits for goroutines that have been told to stop to be gone: up to 1.2 s for the count
 // to be back at the baseline (twice in a row); if it does not get there, until it has been
 // the same for three consecutive probes.  No wall-clock figure is compared anywhere.
 var settleBase = -1
@@ -195,7 +195,7 @@ var settleBase = -1
 func settle() int {
 	if settleBase >= 0 {
 		hits := 0
-		for i := 0; i < 400; i++ {
+		for i := 0; i < 240; i++ {
 			time.Sleep(5 * time.Millisecond)
 			if honeytrapGoroutines() == settleBase {
 				hits++
@@ -304,21 +304,28 @@ var (
 	held   []net.Conn
 )
 
-// waitAccepted: a client that does not pipeline - it goes on only once the server has
-// accepted its data connection (the accept goroutine of the passive socket has finished)
-func waitAccepted() {
-	for i := 0; i < 25000; i++ {
-		heldMu.Lock()
+// accepting counts the passive sockets still waiting for their client (Accept goroutines)
+func accepting() int {
+	heldMu.Lock()
+	defer heldMu.Unlock()
+	for {
 		n := runtime.Stack(stackBuf2, true)
-		ok := n < len(stackBuf2) && !bytes.Contains(stackBuf2[:n], []byte("GoListenAndServe.func1"))
-		if n >= len(stackBuf2) {
-			stackBuf2 = make([]byte, 2*len(stackBuf2))
+		if n < len(stackBuf2) {
+			return bytes.Count(stackBuf2[:n], []byte("GoListenAndServe.func1"))
 		}
-		heldMu.Unlock()
-		if ok {
+		stackBuf2 = make([]byte, 2*len(stackBuf2))
+	}
+}
+
+// waitAccepted: a client that does not pipeline - it goes on only once the server has accepted
+// its data connection, i.e. once fewer Accept goroutines are waiting than before it dialled
+// (sockets left behind by earlier connections keep waiting); bounded, generously
+func waitAccepted(before int) {
+	for i := 0; i < 5000; i++ {
+		if accepting() < before {
 			return
 		}
-		time.Sleep(200 * time.Microsecond)
+		time.Sleep(time.Millisecond)
 	}
 }
 
@@ -381,8 +388,9 @@ func runConn(svc services.Servicer, sp Spec, idx int) (ob ConnObs, gone bool) {
 							if sp.V6 {
 								host = "[::1]"
 							}
-							if dc, err := net.DialTimeout("tcp", fmt.Sprintf("%s:%d", host, port), time.Second); err == nil {
-								waitAccepted()
+							before := accepting()
+							if dc, err := net.DialTimeout("tcp", fmt.Sprintf("%s:%d", host, port), 5*time.Second); err == nil {
+								waitAccepted(before)
 								if sp.Conn.Dial == "knock" {
 									dc.Close()
 								} else {
